@@ -398,7 +398,21 @@ func (x *Exec) seqCat(st *State, a, b *Term) *Term {
 	st.Assume(Implies(Eq(x.seqLen(a), z), Eq(r, b)))
 	st.Assume(Implies(Eq(x.seqLen(b), z), Eq(r, a)))
 	x.needSeqAxioms = true
+	x.catParts[r.S] = [2]*Term{a, b}
+	// associativity instance: a ++ (b1 ++ b2) == (a ++ b1) ++ b2, so that every concatenation has a
+	// left-nested normal form whatever the grouping in the code or the contract
+	if p, ok := x.catParts[b.S]; ok {
+		ln := x.seqCat(st, x.seqCat(st, a, p[0]), p[1])
+		st.Assume(Eq(r, ln))
+	}
 	return r
+}
+
+// seqByte is the one-byte sequence.
+func (x *Exec) seqByte(st *State, b *Term) *Term {
+	t := x.D.Fun("seqbyte", SSeq, b)
+	st.Assume(Eq(x.seqLen(t), BVConstU(1, 64)))
+	return t
 }
 
 func (x *Exec) copyOp(fr *Frame, st *State, c *ssa.CallCommon, args []Value) Value {
@@ -429,6 +443,14 @@ func (x *Exec) copyOp(fr *Frame, st *State, c *ssa.CallCommon, args []Value) Val
 			Implies(Not(inRange), Eq(Select(na, q), Select(old, q))),
 		)
 		st.Assume(&Term{S: fmt.Sprintf("(forall ((%s (_ BitVec 64))) %s)", q.S, body.S), Sort: SBool})
+		if dst.Len.IsConst && dst.Len.BVal.Int64() <= 64 {
+			// small fixed-size destination (hash-sized arrays): spell the instances out
+			for i := int64(0); i < dst.Len.BVal.Int64(); i++ {
+				ic := BVConstU(uint64(i), 64)
+				at := BVBin("bvadd", dst.Off, ic)
+				st.Assume(Eq(Select(na, at), Ite(BVCmp("bvult", ic, n), Select(srcA, BVBin("bvadd", src.Off, ic)), Select(old, at))))
+			}
+		}
 		x.heapStoreFwd(st, name, dst.Base, na)
 	}
 	if b, ok := et.Underlying().(*types.Basic); ok && b.Kind() == types.Uint8 {
